@@ -165,6 +165,20 @@ CLAIMED['C20'] = dict(
          '0-5). Trusted: symnp subclass protocol, CrossHair.',
     ref='4/C20', technique=TECH + '; histories as symbolic choices')
 
+CLAIMED['C16'] = dict(
+    text='The real reader chain (FCSFile.__init__, header/TEXT/DATA readers) runs on concrete '
+         'well-formed images of four layouts served by a model file whose length is a solver '
+         'variable: every crash point 0..length is a path class (the solver partitions the cut at '
+         'read boundaries and inside TEXT); single-field corruptions of $TOT, $PAR, $PnB and the '
+         'HEADER/TEXT offsets take values chosen by a symbolic index from {true-4..true+4, 0, 1, '
+         '2x, 3x+1, 99999999}. Postcondition: an exception, or exactly the intact keywords and '
+         'events.',
+    note='Trusted: model file (seek/read/readinto) and np.memmap contract bounded by the file '
+         'length, CrossHair, z3. The one-byte end-convention ambiguity (declared extent one byte '
+         'longer than the events) is accepted as documented. Outside: other segment orders, '
+         'simultaneous corruptions, larger files.',
+    ref='4/C16', technique=TECH + '; symbolic crash point / fault value')
+
 NA = {
     'C15': 'whole-program run through compiled third-party code and the file system (openpyxl/'
            'pandas xlsx I/O, matplotlib rendering): cannot be executed symbolically; stubbing it '
